@@ -129,7 +129,12 @@ fn check_sequence(
                         kind: "answer-differs-on-logged-program".into(),
                         // the printed program lists items in another order, so the order-dependence
                         // of SLG aggregation (D22, D1) shows up here too; keep it apart from anything else
-                        site: if super::c13::trivial_unique_vs_unknown(&got, &originals[k]) {
+                        site: if matches!(drive::solve_fresh(&reloaded, &peeled, cfg).0, Caught::Ok(ref f) if *f == originals[k]) {
+                            // a FRESH solver on the logged program gives the original answer: the deviation
+                            // is the solver's history dependence (D16, C10's subject), met on the logged
+                            // program because it lists the impls in another order
+                            format!("{}/history-dependent-on-logged-program", cfg.short())
+                        } else if super::c13::trivial_unique_vs_unknown(&got, &originals[k]) {
                             format!("{}/trivial-unique-vs-unknown", cfg.short())
                         } else if super::c13::nonlinear_only(&got, &originals[k]) {
                             format!("{}/nonlinear-only", cfg.short())
@@ -167,11 +172,13 @@ pub fn run_c23(rep: &Report) -> i32 {
         let mut local = BTreeMap::new();
         let alpha = super::c10::alphabet(pc.frag, goals, if thorough { 5 } else { 4 });
         let texts: Vec<String> = alpha.iter().map(|g| g.text.clone()).collect();
-        for seq in sequences(texts.len(), max_len) {
+        // (thorough: sequences of length 3 on every fourth program — the full product took 80 minutes)
+        let max_len_here = if max_len == 3 && pc.pi % 4 != 0 { 2 } else { max_len };
+        for seq in sequences(texts.len(), max_len_here) {
             for cfg in [SolverCfg::SLG, SolverCfg::REC] {
                 *local.entry("sequences".into()).or_insert(0) += 1;
                 check_sequence(rep, &mut local, pc.frag, &pc.text, &pc.chalk, &texts, &seq, cfg, false);
-                if seq.len() >= 2 {
+                if seq.len() == 2 {
                     check_sequence(rep, &mut local, pc.frag, &pc.text, &pc.chalk, &texts, &seq, cfg, true);
                 }
             }
@@ -197,7 +204,7 @@ pub fn run_c23(rep: &Report) -> i32 {
             for cfg in [SolverCfg::SLG, SolverCfg::REC] {
                 *local.entry("sequences".into()).or_insert(0) += 1;
                 check_sequence(rep, &mut local, tc.family, &tc.program, &program, &goals, &seq, cfg, false);
-                if seq.len() >= 2 {
+                if seq.len() == 2 {
                     check_sequence(rep, &mut local, tc.family, &tc.program, &program, &goals, &seq, cfg, true);
                 }
             }
@@ -215,7 +222,7 @@ pub fn run_c23(rep: &Report) -> i32 {
         states,
         tr,
         nt,
-        "for a thinning of the reduced C01 corpus and of the text families for associated types and auto traits: every sequence of length <= 2 (thorough 3) over an alphabet of 4-5 goals is solved on one solver through LoggingRustIrDatabase (sequences of length >= 2 also with the program printed after every goal), the recorded program is printed, parsed and lowered again, the same goals are solved on it by a fresh solver of the same kind, and the decoded answers must be equal; non-trivial = compared answers that are not `No possible solution`",
+        "for a thinning of the reduced C01 corpus and of the text families for associated types and auto traits: every sequence of length <= 2 (thorough 3) over an alphabet of 4-5 goals is solved on one solver through LoggingRustIrDatabase (sequences of length 2 also with the program printed after the first goal), the recorded program is printed, parsed and lowered again, the same goals are solved on it by a fresh solver of the same kind, and the decoded answers must be equal; non-trivial = compared answers that are not `No possible solution`",
         true,
         &["answers are compared by item name after decoding"],
     )
